@@ -45,8 +45,9 @@ RULE = ("DFS enumeration of ALL legal command lists up to the tier's length over
         "solve([literal]), solve([non-literal]), is_sat, is_valid, is_unsat, read assertions), every illegal "
         "one-step extension of a legal script, plus random legal lists (length 5..60, push-heavy / pop-heavy "
         "/ soft-heavy profiles, minmax/maxmin included); thorough adds length 5 and length 6 over 8-symbol "
-        "sub-alphabets; implementation + oracle run on every list, the Coq model on every list up to length 4, every "
-        "random list and (thorough) a seeded 15% sample of the longer enumerated ones. Solver instances alive TOGETHER "
+        "sub-alphabets; implementation + oracle run on every list, the Coq model on every list up to length 3, "
+        "a seeded half (thorough: all) of the length-4 lists, every random list and (thorough) a seeded 15% sample of "
+        "the longer enumerated ones. Solver instances alive TOGETHER "
         "(state shared between objects): every interleaving up to length 5 (6 thorough) of two instances over "
         "{add, push 1, pop 1, is_sat} each with a legal history per instance (instances created at first use), "
         "600 (8000) random interleavings of 2-3 independent random legal histories (all created up front / lazily / "
@@ -59,7 +60,7 @@ RULE = ("DFS enumeration of ALL legal command lists up to the tier's length over
         "one): constructor options generate_models, incremental, unsat_cores_mode None/all/named, random_seed, "
         "solver_options x hook style (clear_pending_pop on the proxy methods / on the public methods): every history "
         "up to length 3, the corpus and the dirty/fresh schedules under each of the 7 single-option flips; every "
-        "third (thorough: every) length-4 history, every random history and unknown-answer history under one of the "
+        "third (thorough: every) length-4 history, every fourth longer one, every random history and unknown-answer history under one of the "
         "95 non-default combinations (cyclic); every enumerated interleaving under one flip; random interleavings with a "
         "random combination per instance; a probe of the documented non-incremental behaviour. "
         "The run stops generating after 50 violations/anomalies; a watchdog (RSS 4 GB, quick: 15 min) turns a blow-up "
@@ -1067,6 +1068,7 @@ def run(tier):
     # the longer enumerated ones; the implementation + oracle side runs on all of them
     rsel = random.Random(chk.seed + 1)
     frac = 1.0 if tier == "quick" else 0.15
+    frac4 = 0.5 if tier == "quick" else 1.0       # share of the length-4 lists that also go to the Coq model
     rows, sel = [], []
     nlegal = 0
     for idx, toks in enumerate(lists):
@@ -1074,7 +1076,7 @@ def run(tier):
             break
         chk.last_input = {"family": "script", "commands": toks}
         last, strict = I.last_formula(toks), I.strict_formula(toks)
-        if len(toks) <= 4 or idx >= nenum or rsel.random() < frac:
+        if len(toks) <= 3 or idx >= nenum or rsel.random() < (frac4 if len(toks) == 4 else frac):
             sel.append(toks)
             rows.append("([%s], %s, %s)" % ("; ".join(coq_script_cmd(t) for t in toks), coq_last(last), coq_strict(strict)))
         chk.count(("script", tuple(toks)))
@@ -1086,12 +1088,8 @@ def run(tier):
     files = write_cases(chk, "script", rows,
                         "list (cmd nat nat) * result (list nat * list (cgoal nat nat)) * result (list nat)", SCRIPT_TAIL)
     meta = dict((p, ("script", sel[i * 500:(i + 1) * 500])) for i, p in enumerate(files))
-    # the model side of the scripts runs (coqc child processes) while the solver histories are generated
-    from concurrent.futures import ThreadPoolExecutor
     have_models = (os.path.exists(os.path.join(lib.COQ, "models", "TrackSolver.vo"))
                    and os.path.exists(os.path.join(lib.COQ, "models", "Script.vo")))
-    overlap = have_models and os.environ.get("VERIF_C16_OVERLAP", "1") == "1"
-    script_future = ThreadPoolExecutor(max_workers=1).submit(lib.run_case_files, files, max(2, lib.NPROC - 4)) if overlap else None
     chk.note("scripts: %d command lists (%d enumerated, %d legal)" % (len(lists), nenum, nlegal))
 
     # ---------------- solver(s) -------------------------------------------------------
@@ -1191,11 +1189,12 @@ def run(tier):
         ncfg += 1
         if len(toks) <= 3:
             var = flips
-        elif tier == "quick" and idx < nsenum and ncfg % 3:
+        elif idx < nsenum and ((tier == "quick" and ncfg % 3) or (len(toks) >= 5 and ncfg % 4)):
             var = ()
         else:
             var = [combos[ncfg % len(combos)]]
-        do_schedule([(0, t) for t in toks], len(toks) <= 4 or idx >= nsenum or rsel.random() < frac, "single", variants=var)
+        do_schedule([(0, t) for t in toks], len(toks) <= 3 or idx >= nsenum or rsel.random() < (frac4 if len(toks) == 4 else frac),
+                    "single", variants=var)
     ulists = [l for l in enumerate_lists(UNKNOWN_ALPHABET, maxlen, illegal_leaves=False) if any(t[0].endswith("_unk") for t in l)]
     ulists.sort(key=len)
     for toks in ulists:
@@ -1221,9 +1220,8 @@ def run(tier):
     corr_bad = []
     chk.last_input = {"family": "model side (coqc on the case files)"}
     if have_models:
-        res = script_future.result() if script_future else {}
-        todo = files + (sfiles[:4] if stopped_early else sfiles)   # stopped early: enough is known already
-        res.update(lib.run_case_files([p for p in todo if p not in res]))
+        todo = (files[:4] + sfiles[:4]) if stopped_early else (files + sfiles)   # stopped early: enough is known already
+        res = lib.run_case_files(todo)
         for p in todo:
             rc, out = res[p]
             mm = lib.parse_nat_list(out) if rc == 0 else None
